@@ -14,14 +14,19 @@ MCV_Args  == SingleVariantArgs
 MCV_Starts == 0..31
 MCV_Steps == {1}
 
-\* histories: three calls, time passing in between, a small set of variants that share or
-\* nearly share cache keys
+\* histories: time passing between calls, a small set of arguments that share or nearly
+\* share cache keys
 MCH_RRV   == {"genuine", "rdataBit", "rdataNameCase"}
 MCH_SIGV  == {"genuine", "exp"}
 MCH_KEYV  == {"genuine", "otherKey"}
-MCH_Args  == {a \in Args : a.rttl \in {4, 9}} \cup {a \in Args : a.rr = "genuine" /\ a.sig = "genuine" /\ a.key = "genuine"}
+G(t)      == [rr |-> "genuine", sig |-> "genuine", key |-> "genuine", rttl |-> t]
+MCH_Args  == {G(1), G(4), G(9), [G(4) EXCEPT !.rr = "rdataNameCase"], [G(4) EXCEPT !.rr = "rdataBit"],
+              [G(9) EXCEPT !.sig = "exp"], [G(4) EXCEPT !.key = "otherKey"]}
 MCH_Starts == {29, 30, 1, 5, 6}
 MCH_Steps == {1, 3, 8}
+\* three calls
+MCH3_Args  == {G(4), G(9), [G(9) EXCEPT !.sig = "exp"]}
+MCH3_Steps == {2, 5}
 
 \* negated witnesses: TLC must find them reachable (expected-to-fail configurations)
 NotUnsignedBitsFree == ~C06_UnsignedBitsFree_Witness
